@@ -43,6 +43,10 @@ def attr_fn(focus_attr, n, leaf=0):
 ASCII_AL = None
 
 
+PUNCT_CATS = dict(leaf=[',', 'conj', '.', ';', ':', 'LRB'], node=['NP\\NP', 'S[dcl]', 'NP'])
+VARIANT = [None]
+
+
 def build(d, lang, shape, focus, n, labels=0, prefix='t', leaf=0, heads='sym', alpha=None):
     """tree with the attributes in `focus` symbolic on leaf `leaf`"""
     al = alpha or AL
@@ -56,7 +60,7 @@ def build(d, lang, shape, focus, n, labels=0, prefix='t', leaf=0, heads='sym', a
         if key == 'word':
             continue
         attrs[key] = (lambda key: (lambda dd, name, i: dd.string(name, n, al) if i == leaf else {'lemma': 'l', 'pos': 'P', 'entity': 'O', 'chunk': 'I', 'base': 'b', 'pos1': 'q', 'inflectionForm': 'f'}.get(key, 'x') + str(i)))(key)
-    tb = TreeBuilder(d, lang, word=word, attrs=attrs, heads=heads, labels=labels, prefix=prefix)
+    tb = TreeBuilder(d, lang, word=word, attrs=attrs, heads=heads, labels=labels, prefix=prefix, cats=(PUNCT_CATS if VARIANT[0] == 'punct' and lang == 'en' else None))
     return tb.build(shape)
 
 
@@ -134,7 +138,8 @@ def split_records(out, header_prefix, nheader=1):
     return recs
 
 
-def h_text(d, lang, fmt, shape, focus, n, labels=0):
+def h_text(d, lang, fmt, shape, focus, n, labels=0, variant=None):
+    VARIANT[0] = variant
     """auto, auto_extended, ptb, ja, deriv, conll through to_string"""
     from depccg.printer import to_string
     from depccg.lang import set_global_language_to
@@ -269,7 +274,8 @@ def check_body(fmt, lang, body, t):
     return 'unknown-format'
 
 
-def h_json(d, lang, shape, focus, n):
+def h_json(d, lang, shape, focus, n, variant=None):
+    VARIANT[0] = variant
     from depccg.printer import to_string
     from depccg.lang import set_global_language_to
     set_global_language_to(lang)
@@ -318,7 +324,8 @@ _JA_FUNCTOR = {'SSEQ': 'sseq', '>': 'fa', '<': 'ba', '>B': 'fc', '<B1': 'bc1', '
                'ADNext': 'adnext', 'ADNint': 'adnint', 'ADV0': 'adv0', 'ADV1': 'adv1', 'ADV2': 'adv2', 'OTHER': 'other'}
 
 
-def h_prolog(d, lang, shape, focus, n):
+def h_prolog(d, lang, shape, focus, n, variant=None):
+    VARIANT[0] = variant
     from depccg.printer import to_string
     from depccg.lang import set_global_language_to
     set_global_language_to(lang)
@@ -395,7 +402,8 @@ def h_prolog(d, lang, shape, focus, n):
     return True
 
 
-def h_xml(d, shape, focus, n):
+def h_xml(d, shape, focus, n, variant=None):
+    VARIANT[0] = variant
     from depccg.printer import to_string
     from depccg.printer.xml import xml_of
     from depccg.lang import set_global_language_to
@@ -442,7 +450,8 @@ def h_xml(d, shape, focus, n):
     return True
 
 
-def h_jigg(d, lang, shape, focus, n):
+def h_jigg(d, lang, shape, focus, n, variant=None):
+    VARIANT[0] = variant
     from depccg.printer import to_string
     from depccg.printer.jigg_xml import to_jigg_xml
     from depccg.lang import set_global_language_to
@@ -518,7 +527,8 @@ def h_jigg(d, lang, shape, focus, n):
     return True
 
 
-def h_html(d, lang, shape, focus, n):
+def h_html(d, lang, shape, focus, n, variant=None):
+    VARIANT[0] = variant
     from depccg.printer import to_string
     from depccg.lang import set_global_language_to
     set_global_language_to(lang)
@@ -588,3 +598,10 @@ def obligations(tier):
                     if lang == 'en':
                         yield Obligation('C07.xml[%s,%s=%d]' % (shape_name(s), '+'.join(focus), n), 'h_xml', dict(shape=s, focus=list(focus), n=n), cost=5)
             yield Obligation('C07.html[%s,%s,word=1]' % (lang, shape_name(s)), 'h_html', dict(lang=lang, shape=s, focus=['word'], n=1), cost=8)
+    # punctuation categories (, conj . ; : LRB) at the leaves
+    s = SHAPES[3][0]
+    for fmt in ('auto', 'auto_extended', 'ptb', 'deriv', 'conll'):
+        yield Obligation('C07.%s[en,%s,punctuation categories]' % (fmt, shape_name(s)), 'h_text', dict(lang='en', fmt=fmt, shape=s, focus=['word'], n=1, variant='punct'), cost=5)
+    for name, hn in (('json', 'h_json'), ('prolog', 'h_prolog'), ('jigg_xml', 'h_jigg'), ('html', 'h_html')):
+        yield Obligation('C07.%s[en,%s,punctuation categories]' % (name, shape_name(s)), hn, dict(lang='en', shape=s, focus=['word'], n=1, variant='punct'), cost=5)
+    yield Obligation('C07.xml[%s,punctuation categories]' % shape_name(s), 'h_xml', dict(shape=s, focus=['word'], n=1, variant='punct'), cost=5)
